@@ -45,136 +45,288 @@ func (m *emitModel) runPopN(fd *ast.FuncDecl, n int64) (string, []string) {
 	return strings.Join(parts, " "), probs
 }
 
-// endScopeShape checks the data-structure side of scope exit.
+// endScopeShape checks the data-structure side of scope exit by a small
+// linear analysis: with L0 the local count on entry and t the (symbolic)
+// number of loop iterations, every integer variable and scope.localCount is
+// a linear form in L0 and t. Required: scope.depth is decremented once,
+// first; the one loop walks a cursor that starts at localCount down by one
+// per iteration under the guard cursor > 0 && locals[cursor-1].depth >
+// scope.depth; at the end localCount equals the cursor and popN receives
+// exactly L0 - localCount.
 func (c *Ctx) endScopeShape(fd *ast.FuncDecl) (bool, string) {
-	var loop *ast.ForStmt
-	depthDecAt, loopAt, popAt := -1, -1, -1
-	var popArg ast.Expr
-	for i, s := range fd.Body.List {
+	isLC := func(e ast.Expr) bool { return strings.HasSuffix(c.fieldPath(e), ".localCount") }
+	isDepth := func(e ast.Expr) bool {
+		fp := c.fieldPath(e)
+		return strings.HasSuffix(fp, ".depth") && !strings.Contains(fp, "locals")
+	}
+	env := map[types.Object]*Lin{}
+	L := linSym("L0")
+	var eval func(e ast.Expr) (*Lin, bool)
+	eval = func(e ast.Expr) (*Lin, bool) {
+		e = c.stripConv(e)
+		if k, ok := c.intConst(e); ok {
+			return linConst(k), true
+		}
+		if isLC(e) {
+			return L, true
+		}
+		switch x := e.(type) {
+		case *ast.Ident:
+			if v, ok := env[c.objOf(x)]; ok {
+				return v, true
+			}
+		case *ast.BinaryExpr:
+			a, ok1 := eval(x.X)
+			b, ok2 := eval(x.Y)
+			if ok1 && ok2 {
+				switch x.Op {
+				case token.ADD:
+					return a.add(b), true
+				case token.SUB:
+					return a.sub(b), true
+				}
+			}
+		}
+		return nil, false
+	}
+	// assign applies  target op= delta  outside a loop (scale 1) or per iteration (scale t)
+	type upd struct {
+		lc  bool
+		obj types.Object
+		d   *Lin
+	}
+	stepOf := func(s ast.Stmt) (upd, bool) {
 		switch s := s.(type) {
 		case *ast.IncDecStmt:
-			if c.fieldPath(s.X) == "<parser>.scope.depth" && s.Tok == token.DEC {
-				if depthDecAt >= 0 {
-					return false, "scope.depth decremented twice"
+			d := linConst(1)
+			if s.Tok == token.DEC {
+				d = linConst(-1)
+			}
+			if isLC(s.X) {
+				return upd{lc: true, d: d}, true
+			}
+			if id, ok := stripParens(s.X).(*ast.Ident); ok {
+				if _, tracked := env[c.objOf(id)]; tracked {
+					return upd{obj: c.objOf(id), d: d}, true
 				}
-				depthDecAt = i
-			} else {
+			}
+		case *ast.AssignStmt:
+			if len(s.Lhs) == 1 && len(s.Rhs) == 1 && (s.Tok == token.ADD_ASSIGN || s.Tok == token.SUB_ASSIGN) {
+				k, isC := c.intConst(s.Rhs[0])
+				if !isC {
+					return upd{}, false
+				}
+				if s.Tok == token.SUB_ASSIGN {
+					k = -k
+				}
+				if isLC(s.Lhs[0]) {
+					return upd{lc: true, d: linConst(k)}, true
+				}
+				if id, ok := stripParens(s.Lhs[0]).(*ast.Ident); ok {
+					if _, tracked := env[c.objOf(id)]; tracked {
+						return upd{obj: c.objOf(id), d: linConst(k)}, true
+					}
+				}
+			}
+		}
+		return upd{}, false
+	}
+	depthDec, loops, pops := 0, 0, 0
+	var popArg, cursorEnd *Lin
+	for idx, s := range fd.Body.List {
+		switch s := s.(type) {
+		case *ast.IncDecStmt:
+			if isDepth(s.X) && s.Tok == token.DEC {
+				depthDec++
+				if idx != 0 {
+					return false, "scope.depth must be decremented first"
+				}
+				continue
+			}
+			u, ok := stepOf(s)
+			if !ok {
 				return false, "unexpected increment/decrement at " + c.pos(s.Pos())
 			}
-		case *ast.ForStmt:
-			if loop != nil {
-				return false, "more than one loop"
+			if u.lc {
+				L = L.add(u.d)
+			} else {
+				env[u.obj] = env[u.obj].add(u.d)
 			}
-			loop, loopAt = s, i
+		case *ast.DeclStmt:
+			gd, ok := s.Decl.(*ast.GenDecl)
+			if !ok {
+				return false, "unexpected declaration"
+			}
+			for _, sp := range gd.Specs {
+				vs, ok := sp.(*ast.ValueSpec)
+				if !ok {
+					continue
+				}
+				for i, n := range vs.Names {
+					if !isInt(c.infoFor(n).Defs[n].Type()) {
+						continue
+					}
+					v := linConst(0)
+					if i < len(vs.Values) {
+						var ok bool
+						if v, ok = eval(vs.Values[i]); !ok {
+							return false, "initial value of " + n.Name + " is not linear in localCount"
+						}
+					}
+					env[c.infoFor(n).Defs[n]] = v
+				}
+			}
+		case *ast.AssignStmt:
+			if u, ok := stepOf(s); ok {
+				if u.lc {
+					L = L.add(u.d)
+				} else {
+					env[u.obj] = env[u.obj].add(u.d)
+				}
+				continue
+			}
+			if len(s.Lhs) != 1 || len(s.Rhs) != 1 || (s.Tok != token.ASSIGN && s.Tok != token.DEFINE) {
+				return false, "unexpected assignment at " + c.pos(s.Pos())
+			}
+			if isNamed(c.typeOf(s.Rhs[0]), bclPath, "scopeCompiler") {
+				continue // scope := p.scope, an alias
+			}
+			v, ok := eval(s.Rhs[0])
+			if !ok {
+				return false, "assignment of a value that is not linear in localCount at " + c.pos(s.Pos())
+			}
+			switch {
+			case isLC(s.Lhs[0]):
+				L = v
+			case isDepth(s.Lhs[0]) || strings.Contains(c.fieldPath(s.Lhs[0]), "locals"):
+				return false, "assignment to the scope tables at " + c.pos(s.Pos())
+			default:
+				id, ok := stripParens(s.Lhs[0]).(*ast.Ident)
+				if !ok {
+					return false, "unexpected assignment target at " + c.pos(s.Pos())
+				}
+				env[c.objOf(id)] = v
+			}
+		case *ast.ForStmt:
+			loops++
+			if loops > 1 || s.Init != nil {
+				return false, "more than one loop, or a loop with an init statement"
+			}
+			body := append([]ast.Stmt(nil), s.Body.List...)
+			if s.Post != nil {
+				body = append(body, s.Post)
+			}
+			// per-iteration deltas
+			dL := linConst(0)
+			dv := map[types.Object]*Lin{}
+			for _, b := range body {
+				u, ok := stepOf(b)
+				if !ok {
+					return false, "loop body contains something other than counter updates"
+				}
+				if u.lc {
+					dL = dL.add(u.d)
+				} else {
+					if dv[u.obj] == nil {
+						dv[u.obj] = linConst(0)
+					}
+					dv[u.obj] = dv[u.obj].add(u.d)
+				}
+			}
+			// guard: cursor > 0 && locals[cursor-1].depth > scope.depth
+			if s.Cond == nil {
+				return false, "loop without a guard"
+			}
+			atoms, pure := c.nnf(s.Cond, true, nil).conjuncts()
+			if !pure || len(atoms) != 2 {
+				return false, "loop guard must be equivalent to cursor > 0 && locals[cursor-1].depth > scope.depth"
+			}
+			var cursor ast.Expr
+			okPos, okDepth := false, false
+			for _, a := range atoms {
+				if b, ok := c.boundOf(a); ok && b.Lo != nil && *b.Lo == 1 && b.Hi == nil {
+					if cursor == nil || c.sameExpr(cursor, b.X) {
+						cursor, okPos = b.X, true
+					}
+					continue
+				}
+				if rel, ok := c.relOf(a); ok && rel.Op == token.LSS && isDepth(rel.L) {
+					if sel, ok := stripParens(rel.R).(*ast.SelectorExpr); ok && sel.Sel.Name == "depth" {
+						if ix, ok := stripParens(sel.X).(*ast.IndexExpr); ok && strings.HasSuffix(c.fieldPath(ix.X), ".locals") {
+							if ib, ok := stripParens(ix.Index).(*ast.BinaryExpr); ok && ib.Op == token.SUB {
+								if k, ok := c.intConst(ib.Y); ok && k == 1 && (cursor == nil || c.sameExpr(cursor, ib.X)) {
+									cursor, okDepth = ib.X, true
+								}
+							}
+						}
+					}
+				}
+			}
+			if !okPos || !okDepth {
+				return false, "loop guard must be equivalent to cursor > 0 && locals[cursor-1].depth > scope.depth"
+			}
+			// the cursor starts at the entry local count and moves down by one
+			start, ok := eval(cursor)
+			if !ok || !start.equal(linSym("L0")) {
+				return false, "the loop cursor does not start at scope.localCount"
+			}
+			var dc *Lin
+			if isLC(cursor) {
+				dc = dL
+			} else if id, ok := stripParens(cursor).(*ast.Ident); ok {
+				dc = dv[c.objOf(id)]
+			}
+			if k, isC := dc.isConstOrNil(); !isC || k != -1 {
+				return false, "the loop cursor must decrease by exactly one per iteration"
+			}
+			// apply t iterations
+			t := linSym("t")
+			scaleT := func(d *Lin) *Lin {
+				k, _ := d.isConst()
+				return t.scale(k)
+			}
+			L = L.add(scaleT(dL))
+			for o, d := range dv {
+				env[o] = env[o].add(scaleT(d))
+			}
+			cursorEnd, _ = eval(cursor)
 		case *ast.ExprStmt:
 			call, ok := s.X.(*ast.CallExpr)
 			if !ok || c.calleeName(call) != "parser.popN" || len(call.Args) != 1 {
 				return false, "unexpected call at " + c.pos(s.Pos())
 			}
-			popAt, popArg = i, call.Args[0]
-		case *ast.DeclStmt:
-		case *ast.AssignStmt:
-			for _, l := range s.Lhs {
-				if strings.HasPrefix(c.fieldPath(l), "<parser>.scope") {
-					return false, "assignment to the scope tables at " + c.pos(s.Pos())
-				}
+			pops++
+			v, ok := eval(call.Args[0])
+			if !ok {
+				return false, "popN argument is not linear in the counters"
+			}
+			popArg = v
+			// localCount must have its final value by now (nothing follows that changes it is checked by position below)
+			if idx != len(fd.Body.List)-1 {
+				return false, "popN must be the last statement"
 			}
 		default:
 			return false, fmt.Sprintf("unexpected statement %T", s)
 		}
 	}
-	if depthDecAt < 0 || loop == nil || popAt < 0 || !(depthDecAt < loopAt && loopAt < popAt) {
-		return false, "expected: scope.depth--; for <guard> { counter++; localCount-- }; popN(counter)"
-	}
-	counter, ok := stripParens(popArg).(*ast.Ident)
-	if !ok {
-		return false, "popN argument is not the loop counter"
-	}
-	cobj := c.objOf(counter)
-	// loop body: counter++ and localCount--, nothing else
-	incC, decL := 0, 0
-	for _, s := range loop.Body.List {
-		ids, ok := s.(*ast.IncDecStmt)
-		if !ok {
-			return false, "loop body contains something other than the two counters"
-		}
-		switch {
-		case ids.Tok == token.INC && c.isObj(ids.X, cobj):
-			incC++
-		case ids.Tok == token.DEC && c.fieldPath(ids.X) == "<parser>.scope.localCount":
-			decL++
-		default:
-			return false, "loop body modifies something other than the pop counter and localCount"
-		}
-	}
-	if incC != 1 || decL != 1 || loop.Init != nil || loop.Post != nil {
-		return false, "the pop counter and localCount must move together, once per iteration"
-	}
-	// guard: localCount > 0 && locals[localCount-1].depth > scope.depth (any equivalent spelling)
-	okPos, okDepth := false, false
-	extra := 0
-	if loop.Cond != nil {
-		atoms, pure := c.nnf(loop.Cond, true, nil).conjuncts()
-		if !pure {
-			return false, "loop guard is not a conjunction"
-		}
-		for _, a := range atoms {
-			if b, ok := c.boundOf(a); ok && c.fieldPath(b.X) == "<parser>.scope.localCount" && b.Lo != nil && *b.Lo == 1 && b.Hi == nil {
-				okPos = true
-				continue
-			}
-			if rel, ok := c.relOf(a); ok && rel.Op == token.LSS && c.fieldPath(rel.L) == "<parser>.scope.depth" {
-				if sel, ok := stripParens(rel.R).(*ast.SelectorExpr); ok && sel.Sel.Name == "depth" {
-					if ix, ok := stripParens(sel.X).(*ast.IndexExpr); ok && c.fieldPath(ix.X) == "<parser>.scope.locals" {
-						if ib, ok := stripParens(ix.Index).(*ast.BinaryExpr); ok && ib.Op == token.SUB && c.fieldPath(ib.X) == "<parser>.scope.localCount" {
-							if k, ok := c.intConst(ib.Y); ok && k == 1 {
-								okDepth = true
-								continue
-							}
-						}
-					}
-				}
-			}
-			extra++
-		}
-	}
-	if !okPos || !okDepth || extra > 0 {
-		return false, "loop guard must be equivalent to localCount > 0 && locals[localCount-1].depth > scope.depth"
-	}
-	// counter starts at zero and is not assigned elsewhere
-	zero := false
-	for _, s := range fd.Body.List {
-		switch s := s.(type) {
-		case *ast.DeclStmt:
-			for _, sp := range s.Decl.(*ast.GenDecl).Specs {
-				if vs, ok := sp.(*ast.ValueSpec); ok {
-					for i, n := range vs.Names {
-						if c.infoFor(n).Defs[n] == cobj {
-							if len(vs.Values) == 0 {
-								zero = true
-							} else if k, ok := c.intConst(vs.Values[i]); ok && k == 0 {
-								zero = true
-							}
-						}
-					}
-				}
-			}
-		case *ast.AssignStmt:
-			for i, l := range s.Lhs {
-				if c.isObj(l, cobj) {
-					if k, ok := c.intConst(s.Rhs[i]); ok && k == 0 && s.Tok == token.DEFINE {
-						zero = true
-					} else {
-						return false, "the pop counter is assigned outside the loop"
-					}
-				}
-			}
-		}
-	}
-	if !zero {
-		return false, "the pop counter does not start at zero"
+	switch {
+	case depthDec != 1:
+		return false, "scope.depth must be decremented exactly once"
+	case loops != 1 || pops != 1 || cursorEnd == nil:
+		return false, "expected: scope.depth--; one loop removing the locals of the closed scope; popN(number removed)"
+	case !L.equal(cursorEnd):
+		return false, fmt.Sprintf("localCount ends as %s but the loop cursor as %s: the locals of the closed scope are not removed exactly", L, cursorEnd)
+	case !popArg.equal(linSym("L0").sub(L)):
+		return false, fmt.Sprintf("popN receives %s but %s locals were removed: emitted pops and compile-time slots go out of step", popArg, linSym("L0").sub(L))
 	}
 	return true, ""
+}
+
+func (a *Lin) isConstOrNil() (int64, bool) {
+	if a == nil {
+		return 0, true
+	}
+	return a.isConst()
 }
 
 func (c *Ctx) addLocalShape(fd *ast.FuncDecl) (bool, string) {
